@@ -29,6 +29,17 @@ func cmdC02(r *RNG, n int, e *Emitter, args []string) {
 		if r.Intn(8) == 0 {
 			c = nil
 		}
+		if i%6 == 5 {
+			// nested rings (island in hole in island ...), triangles with an axis-parallel side among them: a ring that
+			// is dropped or emitted with the wrong orientation shows as a winding number outside {0, 1}
+			s, c = genNestedMixed(r), nil
+			if r.Intn(3) == 0 {
+				c = genNestedMixed(r)
+			}
+			ct = []clip.ClipType{clip.Union, clip.Union, clip.Difference, clip.Xor}[r.Intn(4)]
+			fr = []clip.FillRule{clip.EvenOdd, clip.EvenOdd, clip.NonZero}[r.Intn(3)]
+			info = GenInfo{Kinds: []string{"nested-mixed"}}
+		}
 		emitC02(e, fmt.Sprint(i), s, c, ct, fr, r.Intn(3) == 0, r.Intn(3) != 0, info)
 	}
 }
@@ -87,4 +98,30 @@ func emitC02(e *Emitter, idx string, s, c clip.Paths64, ct clip.ClipType, fr cli
 		line2, _ := genLine("samenz", "4", []clip.Paths64{sol, sol2}, sol, nil)
 		e.Case("c02-"+idx+"u", line2, m2)
 	}
+}
+
+// concentric rings about a common centre, each a square or a right triangle with a vertical and a horizontal side,
+// shrinking by at least 6 units per level so that consecutive rings never touch
+func genNestedMixed(r *RNG) clip.Paths64 {
+	depth := 2 + r.Intn(4)
+	h := int64(40 + 10*depth + r.Intn(30))
+	cx, cy := r.Range(-20, 20), r.Range(-20, 20)
+	var ps clip.Paths64
+	for d := 0; d < depth && h >= 8; d++ {
+		var p clip.Path64
+		if r.Bool() {
+			p = clip.Path64{{X: cx - h, Y: cy - h}, {X: cx + h, Y: cy - h}, {X: cx + h, Y: cy + h}, {X: cx - h, Y: cy + h}}
+			h = h/2 - 3
+		} else {
+			// right triangle with legs 2h, containing the square of half-size h/3 - 2 about (cx - h/3, cy - h/3)
+			p = clip.Path64{{X: cx - h, Y: cy - h}, {X: cx + h, Y: cy - h}, {X: cx - h, Y: cy + h}}
+			cx, cy = cx-h/3, cy-h/3
+			h = h/4 - 2
+		}
+		if r.Intn(3) == 0 {
+			p = clip.ReversePath(p)
+		}
+		ps = append(ps, p)
+	}
+	return ps
 }
